@@ -155,14 +155,27 @@ class StepHooks(LibHooks):
         self.sym = {}
         self.backs = []
         self.applied = False
+        self.api_mode = False
+        self.api_rets = []
 
     def on_loop_entry(self, fn, head, entry):
         if fn.name != STEP_FN:
+            return
+        if self.api_mode:
+            if self.applied:
+                del entry[:]        # a later call of the token loop by the same API function: not part of the first iteration
+            self.applied = True
             return
         need(not self.applied, 'stepm: %s has more than one top-level loop' % STEP_FN)
         self.applied = True
         for st in entry:
             self.apply_head(st)
+
+    def on_return(self, st, fn, ret):
+        LibHooks.on_return(self, st, fn, ret)
+        if self.api_mode and fn.name == STEP_FN and 'step_base' in st.tags and not st.tags.get('api_first_done'):
+            st.tags['api_first_done'] = True
+            self.api_rets.append((st.copy(), ret))
 
     def on_step_backs(self, fn, head, backs):
         if fn.name == STEP_FN:
@@ -308,6 +321,23 @@ def _desc(st, v, names):
     return ('?', type(v).__name__)
 
 
+def _norm_sig(sig):
+    """call chains are taken relative to the token-loop function, so that a path reached through a public function and the
+    same path reached by calling the loop directly have the same signature"""
+    out = []
+    for (chain, f, b, d) in sig:
+        idx = None
+        for i, (fname, loc) in enumerate(chain):
+            if fname == STEP_FN:
+                idx = i
+        if idx is not None:
+            chain = tuple(loc for (fname, loc) in chain[idx + 1:])
+        else:
+            chain = ('<outside>',) + tuple(loc for (fname, loc) in chain)
+        out.append((chain, f, b, d))
+    return tuple(out)
+
+
 def outcome(C, hooks, st, kind, ret, phi_sf):
     lay = C.lay
     F = lay.parser
@@ -377,7 +407,7 @@ def outcome(C, hooks, st, kind, ret, phi_sf):
         hit = cells.get((okey, sz))
         eff[(lvl, fname)] = _desc(st, hit[2], names) if hit is not None else ('?', 'gone')
     rec['eff'] = sorted(eff.items(), key=repr)
-    rec['sig'] = st.tags.get('sig', ())
+    rec['sig'] = _norm_sig(st.tags.get('sig', ()))
     rec['cmps'] = st.tags.get('cmps', ())
     # path condition over the loop-head symbols
     ivl = {}
@@ -453,6 +483,31 @@ def _work(i):
         return {'ok': False, 'K': K, 'error': '%s: %s\n%s' % (type(e).__name__, e, traceback.format_exc()[-1500:])}
 
 
+def _work_api(i):
+    (api, K) = _G['keys'][i]
+    try:
+        res, reached = eval_api_step(_G['mod'], api, K)
+        return {'ok': True, 'K': K, 'api': api, 'outcomes': res, 'reached': reached}
+    except AnalysisBroken as e:
+        return {'ok': False, 'K': K, 'api': api, 'error': 'AnalysisBroken: %s' % e}
+    except Exception as e:
+        return {'ok': False, 'K': K, 'api': api, 'error': '%s: %s\n%s' % (type(e).__name__, e, traceback.format_exc()[-1500:])}
+
+
+def run_api_keys(mod, items, jobs=None):
+    """items: list of (api function name, K)"""
+    _G['mod'] = mod
+    _G['keys'] = items
+    sys.setrecursionlimit(20000)
+    jobs = jobs or min(16, os.cpu_count() or 4)
+    with mp.get_context('fork').Pool(jobs) as pool:
+        out = pool.map(_work_api, range(len(items)), chunksize=4)
+    for r in out:
+        if not r['ok']:
+            raise AnalysisBroken('first-iteration evaluation of %s %r failed: %s' % (r['api'], r['K'], r['error']))
+    return out
+
+
 def run_keys(mod, keys, jobs=None):
     _G['mod'] = mod
     _G['keys'] = keys
@@ -511,11 +566,83 @@ def cofeasible(o1, o2):
     for (c, t) in list(c1['rel']) + list(c2['rel']):
         if not S.assume_ge0(Aff(c, dict(t))):
             return False
-    for (c, t) in list(c1['neq']) + list(c2['neq']):
-        if not S.assume_ne0(Aff(c, dict(t))):
-            return False
     cons = list(S.rel)
     for o, (lo, hi) in S.ivl.items():
         cons.append(Aff.sym(o).sub(lo))
         cons.append(Aff.sym(o).neg().add(hi))
-    return not fm_infeasible(cons, set(S.ivl))
+    syms = set(S.ivl)
+    if fm_infeasible(cons, syms):
+        return False
+    # disequalities: e != 0 is satisfiable together with the rest only if e >= 1 or e <= -1 is (each checked on its own)
+    for (c, t) in list(c1['neq']) + list(c2['neq']):
+        e = Aff(c, dict(t))
+        if fm_infeasible(cons + [e.sub(1)], syms) and fm_infeasible(cons + [e.neg().sub(1)], syms):
+            return False
+    return True
+
+
+# ---- the first iteration of the token loop as reached through a public API function ------------------------------------
+def eval_api_step(mod, api, K):
+    """like eval_step, but the generic state is the state in which the public function `api` is called (so depth / array
+    depth at call entry are the current ones) and whatever the function does before it calls the token loop is included"""
+    hooks = StepHooks()
+    hooks.api_mode = True
+    C = Contracts(mod, hooks)
+    C.I.ctx.limits['step'] = (STEP_FN,)
+    C.I.ctx.limits['sig'] = True
+    C.I.ctx.limits['cap'] = 4096
+    fn = mod.functions.get(api)
+    need(fn is not None, 'stepm: %s not found' % api)
+    lfn = mod.functions[STEP_FN]
+    phi = scan_flags_phi(lfn, C.I.info(lfn))
+    st, args, sym = build_entry(C, hooks, dict(K, mode=0))
+    lay = C.lay
+    F = lay.parser
+    S_ = lay.state
+    w8 = F['depth'][1] * 8
+    A_ = Aff.sym
+    S = st.store
+    # call entry == loop head: O = D, AO = A
+    if K['dz']:
+        d = Aff(0)
+        base = Aff(0)
+        S.assume_eq0(A_(sym['k:O']))
+    else:
+        d = A_(sym['k:D'])
+        base = d.sub(1).mul(lay.ssize)
+        S.assume_eq0(A_(sym['k:O']).sub(d))
+    S.assume_eq0(A_(sym['k:AO']).sub(A_(sym['k:A'])))
+    C.setcell(st, 'P', F['depth'][0], F['depth'][1], Int(w8, d))
+    C.setcell(st, 'P', F['current_state'][0], F['current_state'][1], Ptr('STATE', base))
+    st.mem['STATE'] = {}
+    st.owned.add('STATE')
+    for field, v in (('flags', Int(S_['flags'][1] * 8, Aff(K['flags']))), ('array_depth', Int(8, A_(sym['k:A']))),
+                     ('current_type', Int(S_['current_type'][1] * 8, A_(sym['k:ctype'])))):
+        o = base.add(S_[field][0])
+        st.wcells('STATE')[(o.key(), S_[field][1])] = (o, S_[field][1], v)
+    st.tags['step_base'] = base
+    st.tags['step_dirty'] = frozenset()
+    st.tags['sig'] = ()
+    a = [Ptr('P', Aff(0))]
+    np_ = len(fn.params)
+    if np_ == 2:
+        st.add_region(Region('OUT', 'obj', Aff(2 * lay.ptr)))
+        st.mem['OUT'] = {}
+        st.owned.add('OUT')
+        st.tags[('default', 'OUT')] = 'unknown'
+        a.append(Ptr('OUT', Aff(0)))
+    elif np_ == 3:
+        n = st.fresh('k:sn_len', lay.szw, 0, lay.objmax)
+        sym['k:sn_len'] = n
+        st.add_region(Region('USPAN', 'span', A_(n), readonly=True, content='bytes'))
+        a += [Ptr('USPAN', Aff(0)), Int(lay.szw, A_(n))]
+    need(np_ in (1, 2, 3), 'stepm: unexpected parameter list of %s' % api)
+    hooks.sym = sym
+    st.frames = [C._root_frame()]
+    C.I.call_function(st, fn, a, None)
+    res = []
+    for (s, rv) in hooks.api_rets:
+        res.append(outcome(C, hooks, s, 'ret', rv, phi))
+    for s in hooks.backs:
+        res.append(outcome(C, hooks, s, 'cont', None, phi))
+    return res, hooks.applied
